@@ -20,10 +20,10 @@ def enclosing(fn, head):
     return {h for h, b in fn.loops().items() if h != head and head in b}
 
 
-def entry_env(prog, fn, head, models=None, args=None):
+def entry_env(prog, fn, head, models=None, args=None, opaque=()):
     """symbolic environment on first arrival at the loop head (success path of the code before the loop).
     Returns (env, tree) where tree's leaves are '@join' markers or early-return values."""
-    ev = sym.Evaluator(prog, models=models, opaque_local=OPAQUE)
+    ev = sym.Evaluator(prog, models=models, opaque_local=OPAQUE + tuple(opaque))
     ev.summarize_loops = True
     ev.no_skip = enclosing(fn, head)
     env = {0: ("uninit",)}
@@ -33,12 +33,50 @@ def entry_env(prog, fn, head, models=None, args=None):
     ls = sym._leaves(tree, [])
     joins = [x for x in ls if isinstance(x, tuple) and x and x[0] == "@join"]
     envs = [ev._joins[j[1]][0] for j in joins]
+    if len(envs) > 1:
+        # several symbolic paths reach the loop: merge them into one environment of case trees; paths that never
+        # reach the loop contribute ('noentry',) leaves, which the simplifier drops
+        keys = set()
+        for e in envs:
+            keys |= set(e)
+        by_id = {j[1]: ev._joins[j[1]][0] for j in joins}
+        merged = {}
+        for l in keys:
+            vals = {jid: e.get(l, ("uninit",)) for jid, e in by_id.items()}
+            first = next(iter(vals.values()))
+            if all(v == first for v in vals.values()):
+                merged[l] = first
+            else:
+                merged[l] = drop_noentry(sym.map_leaves(tree, lambda leaf, vals=vals: vals[leaf[1]] if (isinstance(leaf, tuple) and leaf and leaf[0] == "@join") else ("noentry",)))
+        envs = [merged]
     return envs, tree, ev
 
 
-def iteration(prog, fn, head, body, tracked, env0=None, models=None):
+def drop_noentry(t):
+    """remove ('noentry',) arms from a case tree (their ranges are given to a neighbouring arm: they are infeasible on
+    any path that reaches the loop)"""
+    if isinstance(t, tuple) and t and t[0] == "cases":
+        arms = [(rs, drop_noentry(x)) for rs, x in t[3]]
+        live = [(rs, x) for rs, x in arms if x != ("noentry",)]
+        if not live:
+            return ("noentry",)
+        if len(live) < len(arms):
+            dead = tuple(r for rs, x in arms if x == ("noentry",) for r in rs)
+            live[-1] = (sym.rs_norm(live[-1][0] + dead), live[-1][1])
+        return sym.mk_cases(t[1], t[2], tuple(live))
+    if isinstance(t, tuple) and t and t[0] == "ite":
+        a, b = drop_noentry(t[2]), drop_noentry(t[3])
+        if a == ("noentry",):
+            return b
+        if b == ("noentry",):
+            return a
+        return sym.ite(t[1], a, b)
+    return t
+
+
+def iteration(prog, fn, head, body, tracked, env0=None, models=None, opaque=()):
     """closed form of one iteration: leaves ('next', values of tracked locals) / ('exit', block) / returned values"""
-    ev = sym.Evaluator(prog, models=models, opaque_local=OPAQUE)
+    ev = sym.Evaluator(prog, models=models, opaque_local=OPAQUE + tuple(opaque))
     ev.summarize_loops = True
     return ev.eval_loop_body(fn, head, body, tracked, env0), ev
 
@@ -120,11 +158,11 @@ def simplify_under(t, conds):
     return sym.rebuild(t, sub, known) if (sub or known) else t
 
 
-def summarize(prog, fn, models=None):
+def summarize(prog, fn, models=None, opaque=()):
     """summary of every natural loop of fn (see module doc). Raises sym.Undecided when a loop cannot be summarised."""
     out = []
     for h, body, depth in find_loops(fn):
-        envs, tree, ev = entry_env(prog, fn, h, models)
+        envs, tree, ev = entry_env(prog, fn, h, models, opaque=opaque)
         if len(envs) != 1:
             raise sym.Undecided("loop at bb%d of %s is entered on %d symbolic paths (expected 1)" % (h, fn.path, len(envs)))
         e = envs[0]
@@ -140,7 +178,7 @@ def summarize(prog, fn, models=None):
                 N = sym.fld(v, "end")
                 start = sym.fld(v, "start")
                 env0[l] = sym.adt(v[1], v[2], (("start", I), ("end", N)))
-        tree, ev2 = iteration(prog, fn, h, body, tracked, env0=env0, models=models)
+        tree, ev2 = iteration(prog, fn, h, body, tracked, env0=env0, models=models, opaque=opaque)
         ne = sym.normal_exit(fn, h, body)
         ps = []
         for conds, leaf in paths(tree):
@@ -232,10 +270,10 @@ def split_cases(vals, conds=(), limit=64):
     return out
 
 
-def exit_value(prog, fn, lp, models=None):
+def exit_value(prog, fn, lp, models=None, opaque=()):
     """value returned by the function when the loop is left through its normal exit, as a term over the loop-carried
     atoms L<i> (inner/outer loops summarised)"""
-    ev = sym.Evaluator(prog, models=models, opaque_local=OPAQUE)
+    ev = sym.Evaluator(prog, models=models, opaque_local=OPAQUE + tuple(opaque))
     ev.summarize_loops = True
     asg = assigned_in(fn, lp["body"])
     env = {l: v for l, v in lp["entry"].items() if l not in asg}
